@@ -67,6 +67,38 @@ Proof.
   apply abspath_abs_normal. exact Hcwd.
 Qed.
 
+(* the same for any normalised absolute root (one or two separators + plain segments) *)
+Lemma confined_normal_base_now :
+  forall base id p,
+    abs_normalN base -> get_rails_path_now base id = Accept p -> insideN base p.
+Proof.
+  intros base id p Hb H.
+  eapply (get_rails_path_confined N N.eq_dec sepN dotN reject_pattern prefix_check_present
+            guard_sep_now guard_dotdot_now); eassumption.
+Qed.
+
+(* functional specification of the per-id logic, given that the reject test fires on ".." *)
+Lemma path_spec_now :
+  forall cwd root id,
+    starts_with_sepN cwd = true ->
+    reject_now [dotN; dotN] = true ->
+    let base := abspathN cwd root in
+    get_rails_path_now base id =
+      if reject_now id then Reject
+      else Accept (if nstr_eqb id [] || nstr_eqb id [dotN] then base
+                   else base ++ Path.tail_sep N N.eq_dec sepN base ++ id).
+Proof.
+  intros cwd root id Hcwd Hdd base.
+  assert (E : forall a b, nstr_eqb a b = Path.str_eqb N N.eq_dec a b).
+  { induction a as [|x a IH]; destruct b as [|y b]; simpl; try reflexivity.
+    rewrite IH. unfold Path.ceq. destruct (N.eq_dec x y) as [e|e].
+    - subst. rewrite N.eqb_refl. reflexivity.
+    - apply N.eqb_neq in e. rewrite e. reflexivity. }
+  rewrite !E.
+  apply (get_rails_path_spec N N.eq_dec sepN dotN reject_pattern prefix_check_present guard_sep_now);
+    [apply abspath_abs_normal; exact Hcwd | exact Hdd].
+Qed.
+
 (* the form of DESIGN.md: when the root is not "/" or "//" the accepted path is the root or
    root ++ "/" ++ seg with no separator in seg and seg none of "", ".", ".." *)
 Lemma confined_now_nonroot :
@@ -260,5 +292,23 @@ Section Server.
       u = threadN (s_store N M st) (thread_prefix ++ tid) ++ turns_ofN tid rqs1 os1 ++ new_messagesN rq
       /\ nth_error (snd (run_src st (rqs1 ++ rq :: rqs2))) (length rqs1) = Some o.
   Proof. intros. eapply run_used_spec; eassumption. Qed.
+
+  Definition http_chat_src :=
+    Threads.http_chat N N.eq_dec sepN dotN cache_key_joiner M reject_pattern prefix_check_present
+                      thread_prefix min_len_src (N.to_nat field_min_len) field_max_nat
+                      base_src single default load_ok llm.
+
+  Lemma http_layer_now :
+    forall st h st' o,
+      http_chat_src st h = (st', o) ->
+      (st' = st /\ o_reply N M o = R422 /\ o_loads N M o = [] /\ o_used N M o = None)
+      \/ exists rq, Threads.validate N M (N.to_nat field_min_len) field_max_nat h = Some rq
+                    /\ chat_src st rq = (st', o)
+                    /\ r_thread N M rq = h_thread N M h
+                    /\ r_messages N M rq = h_messages N M h
+                    /\ (forall t, r_thread N M rq = Some t ->
+                                  (N.to_nat field_min_len <= length t)%nat
+                                  /\ match field_max_nat with Some m => (length t <= m)%nat | None => True end).
+  Proof. intros. eapply http_chat_cases; eassumption. Qed.
 
 End Server.
